@@ -131,7 +131,9 @@ def extra_checks(tier, seed):
             hist.append((1, e, 100 + 2 * j))
             hist.append((0, e, 101 + 2 * j))
         c['history'] = hist
-        c['cls'] = ['HierarchicalMachine', 'LockedHierarchicalMachine'][i % 2]
+        c['cls'] = ['HierarchicalMachine', 'LockedHierarchicalMachine', 'HierarchicalGraphMachine'][i % 3]
+        if i % 4 == 1:
+            c['attr'] = 'phase'         # custom model_attribute
         cases.append(c)
     mo, io = hsm.run_pairs(cases)
     bad = [(c, m, i) for c, m, i in zip(cases, mo, io) if m != i]
